@@ -59,6 +59,33 @@ def step_polls(repo, out, consts):
             ok_interval = re.search(r"let %s=[\w.()]*\.poll_every\(\)" % interval, fbody) is not None
             ok_counter = (("%s+=1" % counter) in fbody) or re.search(r"for\(%s,\w+\)in[^{]*\.enumerate\(\)" % counter, fbody) is not None
             ok_body = re.fullmatch(r"(let location=.*;)?Err\(Error::StoppedByWatchdog\)\.locate\(\w+(\.\w+\(\))?\)\?;", body) is not None
+            # the counter must advance on EVERY iteration: no `continue` between the poll and the bump (a skipped bump
+            # lets the loop run arbitrarily long without polling: the defect repaired by cb7530b)
+            if ("%s+=1" % counter) in fbody:
+                loop = None
+                for lm in re.finditer(r"(?:for\s[^{;]*|loop\s*|while\s[^{;]*)\{", src):
+                    lb = lm.end() - 1
+                    if lb > m.start():
+                        break
+                    try:
+                        le = match_brace(src, lb)
+                    except Exception:
+                        continue
+                    if lb < m.start() < le and (loop is None or lb > loop[0]):
+                        loop = (lb, le)
+                if loop is None:
+                    problems.append("%s::%s: the poll is not inside a loop" % (rel, name))
+                else:
+                    bump = re.search(r"%s\s*\+=\s*1\s*;" % counter, src[loop[0]:loop[1]])
+                    if bump is None:
+                        problems.append("%s::%s: counter `%s` is not advanced inside the polled loop" % (rel, name, counter))
+                    else:
+                        bpos = loop[0] + bump.start()
+                        seg = src[be:bpos] if bpos > be else src[bpos:m.start()]
+                        seg = re.sub(r"//[^\n]*", "", seg)
+                        if re.search(r"\bcontinue\b|\bbreak\b", seg):
+                            problems.append("%s::%s: a `continue`/`break` lies between the poll and `%s += 1` (the counter would not "
+                                            "advance on every iteration)" % (rel, name, counter))
             if not ok_interval:
                 problems.append("%s::%s: interval `%s` is not bound from poll_every()" % (rel, name, interval))
             if not ok_counter:
